@@ -422,6 +422,9 @@ class Polynomial:
 
     def eval(self, x):
         if self.raw:
+            # Powers of integer columns are computed in floating point: integer dtypes wrap around
+            if np.issubdtype(np.asarray(x).dtype, np.integer):
+                x = np.asarray(x, dtype=float)
             return np.column_stack([np.power(x, k) for k in range(1, self.degree + 1)])
 
         def get_alpha(k):
